@@ -140,6 +140,26 @@ def rule_K(ctx):
                                'must be the class of the left/bitstring operand', loc=f.loc(ret), extra={'ctx': c})
                     else:
                         r.ok(f'{c}.{op}:{norm(ret)}', {'instance': f'{c}.{op}', 'returns': sorted(tags)})
+    # Python runs the RIGHT operand's reflected method first when its class is a proper subclass of the left operand's class
+    # and provides a different implementation of it.  The reflected methods build their result from type(self), so such an
+    # override makes Base + Sub an instance of Sub.  (The __radd__ reason above rests on this not happening.)
+    for rop in ('__radd__', '__rmul__', '__rand__', '__ror__', '__rxor__', '__rlshift__', '__rrshift__', '__rsub__'):
+        for L in FAMILY:
+            wl = m.winner(L, rop)
+            for R in FAMILY:
+                if R == L or L not in m.mro[R]:
+                    continue
+                wr = m.winner(R, rop)
+                if not wr:
+                    continue
+                if [g.key for g in wr] != [g.key for g in wl]:
+                    g = wr[0]
+                    r.fail(g.key, f'{L} {rop[3:-2]} {R}: {R}.{rop} differs from {L}.{rop}',
+                           f"{g.cls}.{rop} overrides the reflected operator of its base class {L}: for `{L} instance {rop[3:-2]} {R} instance` Python calls "
+                           f"{R}.{rop} before {L}.__{rop[3:]} (subclass priority), and it builds the result from type(self) = {R}: the result no longer "
+                           f"has the class of the left operand", loc=g.loc(), extra={'ctx': R})
+                else:
+                    r.ok(f'{L}/{R}.{rop}', {'instance': f'{L} op {R}', 'reflected': rop, 'verdict': 'same implementation: left operand goes first'})
     return r
 
 
@@ -507,6 +527,17 @@ def rule_D2(ctx):
                 else:
                     r.fail(f.key, x, 'single-bit read outside try/except IndexError -> ReadError: a truncated codeword surfaces as IndexError '
                            'without the ReadError contract', loc=f.loc(x))
+            if isinstance(x, ast.Call) and isinstance(x.func, ast.Attribute) and ast.unparse(x.func.value) == 'self' and \
+                    x.func.attr in ('startswith', 'endswith', 'find', 'rfind', 'findall', 'count', 'any', 'all', 'cut', 'split', '_slice'):
+                # these look at bits without ever raising for a position at or past the end
+                pre = [y for y in own_walk(f.node) if isinstance(y, ast.If) and 'len(self)' in ast.unparse(y.test) and 'ReadError' in G.raises_in(y.body)
+                       and y.lineno < x.lineno]
+                if pre:
+                    r.ok(f'{f.key}:{norm(x)}')
+                else:
+                    r.fail(f.key, x, f'the decoder examines bits with {x.func.attr}(), which never raises at the end of the data, and no remaining-bits '
+                           'test precedes it: a codeword cut off here is decoded as if the missing bits were there (or absent), and the returned '
+                           'position lies beyond the end, instead of ReadError', loc=f.loc(x), extra={'props': ['C10', 'C06']})
             if isinstance(x, ast.Subscript) and isinstance(x.ctx, ast.Load) and ast.unparse(x.value) == 'self' and isinstance(x.slice, ast.Slice):
                 # slices never raise: a length test must precede
                 pre = [y for y in own_walk(f.node) if isinstance(y, ast.If) and 'len(self)' in ast.unparse(y.test) and 'ReadError' in G.raises_in(y.body)
